@@ -2,7 +2,7 @@
 # usage: tools/run_seeded.sh [filter] [tier]  — for every /verif/seeded/<id>/patch.diff: apply it in a scratch worktree of /repo (never /repo itself),
 # run the quick check of the property it breaks against that worktree (VERIF_REPO), record whether a VIOLATION was reported. Writes seeded/RESULTS.tsv
 filter=${1:-}; tier=${2:-quick}
-WT=/tmp/seed_wt
+WT=${SEED_WT:-/tmp/seed_wt}
 git -C /repo worktree remove --force $WT 2>/dev/null
 git -C /repo worktree add -q --detach $WT HEAD || exit 3
 cd /verif
